@@ -101,7 +101,8 @@ OpenPosition(W0, sender, a, funds) ==
      ELSE IF a.leverage < D THEN Fail(W, "leverage")
      ELSE IF (D * D) \div a.leverage < W.eng.cfg.imr THEN Fail(W, "undercollateralized")
      ELSE LET p == GetPos(W, v, sender, a.side)
-              inc == (p.dir = "add" /\ a.side = "buy") \/ (p.dir = "rem" /\ a.side = "sell")
+              \* fix F19: a zero-size record holds nothing to reverse
+              inc == p.size = 0 \/ (p.dir = "add" /\ a.side = "buy") \/ (p.dir = "rem" /\ a.side = "sell")
               on == (a.margin * a.leverage) \div D
               q == PnL(W, v, p, "spot")
           IN IF ~q.ok THEN Fail(W, IF q.over THEN "over" ELSE "panic")
